@@ -229,7 +229,7 @@ def num_literal(draw, nonneg=False, forms=NUM_FORMS):
 
 @st.composite
 def bf_literal(draw):
-    """Branching-fraction literal: any accepted form, value in [0, ~1000]."""
-    f = draw(st.sampled_from(("dec", "dec", "int", "int.", ".frac", ".frac", "Exp", "tiny", "plus", "exp.")))
-    s = draw(num_literal(nonneg=True, forms=(f,)))
+    """Branching-fraction literal: any accepted form (now and then signed), |value| in [0, ~1000]."""
+    f = draw(st.sampled_from(("dec", "dec", "int", "int.", ".frac", ".frac", "Exp", "tiny", "plus", "exp.", "dec", "int", "neg")))
+    s = draw(num_literal(nonneg=(f != "neg"), forms=(f,)))
     return s
